@@ -1,6 +1,103 @@
-import CCT.Model.Auth
-/-! # C03 (theorems; work in progress) -/
+import CCT.Lemmas.Rules
+import CCT.Props.C01
+/-!
+# C03 — a root update is accepted iff version+1 and signed per the old and the new root rules
+
+Model: `verifyRootJ` (`authentication.py:40-111`).
+-/
 namespace CCT.C03
-open CCT
-theorem placeholder : okU = .ok () := rfl
+open CCT CCT.C15
+open Classical
+
+/-- both are well-formed root-type metadata declaring a root rule, the offered version is exactly the trusted version plus one,
+and the OpenPGP-mode signatures on the offered metadata meet the root rule of the trusted root and the root rule it declares itself -/
+def SpecVerifyRoot (C : CryptoFns) (t u : J) : Prop :=
+  IsRootMd t ∧ IsRootMd u ∧ versionOf u = versionOf t + 1 ∧ RuleMet C true (rootRule t) u ∧ RuleMet C true (rootRule u) u
+
+theorem rootRule_ok {m : J} (h : IsRootMd m) : DelegationOK (rootRule m) := by
+  obtain ⟨hs, _, hr⟩ := h
+  obtain ⟨d, hd⟩ := Option.isSome_iff_exists.mp hr
+  have := mem_delegations_ok hs hd
+  simp [rootRule, hd]; exact this
+
+theorem isRootMd_signable {m : J} (h : IsRootMd m) : isSignableJ m = true := by
+  obtain ⟨⟨_, _, hp, _⟩, _⟩ := h; exact hp.signable
+
+/-- **accepted if and only if** -/
+theorem verifyRoot_iff (C : CryptoFns) (t u : J) : verifyRootJ C t u = .ok () ↔ SpecVerifyRoot C t u := by
+  rw [verifyRoot_eq]
+  by_cases h1 : IsRootMd t ∧ IsRootMd u
+  · rw [if_neg (by simp [h1])]
+    by_cases hv : versionOf t + 1 ≠ versionOf u
+    · rw [if_pos hv]
+      constructor
+      · intro h; cases h
+      · rintro ⟨_, _, h, _⟩; exact absurd h.symm hv
+    · rw [if_neg hv]
+      simp only [bind, Except.bind, rule_verdict C true _ u (rootRule_ok h1.1) (isRootMd_signable h1.2),
+        rule_verdict C true _ u (rootRule_ok h1.2) (isRootMd_signable h1.2)]
+      have hv' : versionOf u = versionOf t + 1 := by omega
+      by_cases m1 : RuleMet C true (rootRule t) u
+      · by_cases m2 : RuleMet C true (rootRule u) u
+        · simp only [m1, m2, if_true, true_iff]; exact ⟨h1.1, h1.2, hv', m1, m2⟩
+        · simp only [m1, m2, if_true, if_false]
+          constructor
+          · intro h; cases h
+          · rintro ⟨_, _, _, _, h⟩; exact absurd h m2
+      · simp only [m1, if_false]
+        constructor
+        · intro h; cases h
+        · rintro ⟨_, _, _, h, _⟩; exact absurd h m1
+  · rw [if_pos h1]
+    constructor
+    · intro h; cases h
+    · rintro ⟨a, b, _⟩; exact absurd ⟨a, b⟩ h1
+
+/-- nothing the untrusted metadata says about itself substitutes for the trusted root's keys and threshold -/
+theorem trusted_rule_needed (C : CryptoFns) (t u : J) (h : verifyRootJ C t u = .ok ()) :
+    ∃ S : List PStr, S.Nodup ∧ thrOf (rootRule t) ≤ S.length ∧
+      ∀ k ∈ S, k ∈ keysOf (rootRule t) ∧ ∃ sig, (k, sig) ∈ entriesOf u ∧ Counts C true (keysOf (rootRule t)) (ser (signedOf u)) k sig := by
+  obtain ⟨_, _, _, ⟨S, hS, hl, hall⟩, _⟩ := (verifyRoot_iff C t u).mp h
+  exact ⟨S, hS, hl, fun k hk => by obtain ⟨sig, hm, hc⟩ := hall k hk; exact ⟨hc.2.1, sig, hm, hc⟩⟩
+
+/-- … and the new root must be consistent with itself -/
+theorem own_rule_needed (C : CryptoFns) (t u : J) (h : verifyRootJ C t u = .ok ()) : RuleMet C true (rootRule u) u :=
+  ((verifyRoot_iff C t u).mp h).2.2.2.2
+
+/-- only OpenPGP-shaped signatures count for root metadata -/
+theorem root_signatures_are_gpg (C : CryptoFns) (d u : J) (k : PStr) (sig : J)
+    (h : Counts C true (keysOf d) (ser (signedOf u)) k sig) : GpgShape sig := by
+  have := h.2.2; simp at this; exact this.1
+
+/-- a root-version mismatch between well-formed roots is a metadata-verification error -/
+theorem version_mismatch_error (C : CryptoFns) (t u : J) (ht : IsRootMd t) (hu : IsRootMd u) (hv : versionOf u ≠ versionOf t + 1) :
+    verifyRootJ C t u = .error .metadataVerification := by
+  rw [verifyRoot_eq, if_neg (by simp [ht, hu]), if_pos (by omega)]
+
+/-- insufficient signatures on a correctly versioned update are a signature error -/
+theorem insufficient_error (C : CryptoFns) (t u : J) (ht : IsRootMd t) (hu : IsRootMd u) (hv : versionOf u = versionOf t + 1)
+    (hm : ¬ (RuleMet C true (rootRule t) u ∧ RuleMet C true (rootRule u) u)) : verifyRootJ C t u = .error .signature := by
+  rw [verifyRoot_eq, if_neg (by simp [ht, hu]), if_neg (by omega)]
+  simp only [bind, Except.bind, rule_verdict C true _ u (rootRule_ok ht) (isRootMd_signable hu),
+    rule_verdict C true _ u (rootRule_ok hu) (isRootMd_signable hu)]
+  by_cases m1 : RuleMet C true (rootRule t) u
+  · have m2 : ¬ RuleMet C true (rootRule u) u := fun h => hm ⟨m1, h⟩
+    simp [m1, m2]
+  · simp [m1]
+
+/-- anything that is not a pair of well-formed root metadata is an argument error -/
+theorem malformed_error (C : CryptoFns) (t u : J) (h : ¬ (IsRootMd t ∧ IsRootMd u)) : verifyRootJ C t u = .error .arg := by
+  rw [verifyRoot_eq, if_pos h]
+
+theorem verifyRoot_outcomes (C : CryptoFns) (t u : J) :
+    verifyRootJ C t u = .ok () ∨ verifyRootJ C t u = .error .arg ∨ verifyRootJ C t u = .error .metadataVerification ∨
+    verifyRootJ C t u = .error .signature := by
+  by_cases h : IsRootMd t ∧ IsRootMd u
+  · by_cases hv : versionOf u = versionOf t + 1
+    · by_cases hm : RuleMet C true (rootRule t) u ∧ RuleMet C true (rootRule u) u
+      · left; exact (verifyRoot_iff C t u).mpr ⟨h.1, h.2, hv, hm.1, hm.2⟩
+      · right; right; right; exact insufficient_error C t u h.1 h.2 hv hm
+    · right; right; left; exact version_mismatch_error C t u h.1 h.2 hv
+  · right; left; exact malformed_error C t u h
+
 end CCT.C03
